@@ -21,7 +21,9 @@ pub fn inverse_gamma_lr<T: MomTropFloat>(
         epsilon_tolerance.to_f64(),
     );
 
-    if res.is_nan() {
+    // the quantile of a Gamma distribution is a positive finite number: NaN, an infinity and a
+    // non-positive value (e.g. -0.0 for shape 1 and p = 0) are failures, not samples
+    if res.is_nan() || res.is_infinite() || res <= 0.0 {
         Err(GammaError {})
     } else {
         Ok(a.from_f64(res))
